@@ -205,6 +205,21 @@ register("C13",
 
 PENDING = "check not built yet in this revision (see DESIGN.md section 10 build order)"
 
+# additions of the fifth session, appended to the texts above (kept apart so that no scripted edit touches the register() calls)
+CTE = (" Regenerated on every run: what SQLGenerator._build_model_cte projects -- (expression, alias) items, FROM, pushed-down WHERE -- on 476 scripted worlds x queries (Gen/CteShape_gen.v, fail-closed "
+       "definitional interpreter, validated against CPython); Model/CteShape.v equals it on every row, and for ANY definition, graph and query: ")
+APPEND = {
+    "C01": CTE + "the raw column of a measure is 1 / the key / its own expression guarded by its filters (C01_cte_table, C01_raw_column_of_a_measure). One case in four is registered through extends + resolve_model_inheritance.",
+    "C02": CTE + "the primary key and every key column the join paths use are projected, a dimension that is not a key column keeps its own SQL (C02_primary_key_projected, C02_join_keys_projected, "
+                 "C02_non_key_dimension_own_sql); the K4 witness is a row of the regenerated table. Sample stddev / variance / median of the parent across a one_to_many hop are a targeted family.",
+    "C04": CTE + "a metric's filters only change that metric's raw column, which is the unfiltered column guarded by their conjunction (C04_metric_filter_only_its_column, C04_filtered_measure_guarded). "
+                 "Metric-value filters are also asked with a rollup available, routed and unrouted.",
+    "C20": CTE + "every requested dimension is projected under its name and every requested granularity of a time dimension under <name>__<granularity>, nothing twice (C20_requested_dimension_projected, "
+                 "C20_requested_granularity_projected, C20_projected_once); the K3 witness is a row of the regenerated table. One definition in three is registered through extends.",
+    "C11": " Regenerated on every run: what sql_definitions._parse_scalar_literal makes of 44 scripted property values (Gen/SqlValue_gen.v); Model/SqlValue.v equals it on every row and, for EVERY text s, "
+           "the single-quoted literal with doubled quotes denotes s (C11_quoted_literal_roundtrip). Generated three-way definitions (Python / YAML / SQL definition syntax with quoted expressions) are compiled and compared.",
+}
+
 
 def main():
     check_complete()
@@ -220,7 +235,7 @@ def main():
                 "evidence_file": "evidence/%s.json" % pid,
                 "replay_cmd_template": "./check {property} --replay {path}".replace("{property}", pid),
                 "engine": "coq-model",
-                "level_claimed": {"category": "proof", "text": c["text"], "design_ref": c["design_ref"]},
+                "level_claimed": {"category": "proof", "text": c["text"] + APPEND.get(pid, ""), "design_ref": c["design_ref"]},
                 "level_note": c["note"],
                 "technique": c["technique"],
             })
